@@ -21,10 +21,10 @@ Q_POps == {<<>>, <<"x">>, <<"xy">>, <<"x", "y">>}
 Q_LMn  == {"a", "ab", "b"}
 Q_LOps == {<<>>, <<"x">>, <<"xy">>, <<"y">>, <<"x", "y">>, <<"y", "x">>, <<"%x", "xy", "y">>}
 T_PMn  == {"a", "ab", "ba"}
-T_POps == {<<>>, <<"x">>, <<"xy">>, <<"%x">>, <<"x", "y">>, <<"xy", "x">>, <<"x", "x", "y">>}
+T_POps == {<<>>, <<"x">>, <<"xy">>, <<"%x">>, <<"x", "y">>, <<"xy", "x">>, <<"x", "x", "y">>, <<"0">>}
 T_LMn  == {"a", "ab", "b", "ba"}
 T_LOps == {<<>>, <<"x">>, <<"xy">>, <<"y">>, <<"%x">>, <<"x", "y">>, <<"y", "x">>, <<"xy", "x">>,
-           <<"%x", "xy", "y">>, <<"x", "x", "y">>, <<"x", "x", "y", "x">>}
+           <<"%x", "xy", "y">>, <<"x", "x", "y">>, <<"x", "x", "y", "x">>, <<"0x0">>, <<"10">>}
 
 Universe == [patterns |-> SetToSeq(Patterns), listings |-> SetToSeq(Listings)]
 =============================================================================
